@@ -120,6 +120,10 @@ def shape_inputs(tier):
             ns = [5, 19, 25] + deep
         elif fam in ("subtype_chain", "subtype_cycle"):
             ns = [1, 2, 3, 40, 300] if quick else [1, 2, 3, 40, 300, 1000]      # exp2cxx is quadratic in the chain length
+        elif fam.startswith("escape_"):
+            ns = [100, 8191, 8192, 9000] if quick else [100, 4095, 4096, 8190, 8191, 8192, 8193, 9000, 20000, 100000]
+        elif fam.startswith("longexpr_"):
+            continue        # run separately through the generators' string path (see long_expr_inputs)
         elif fam == "many_supertypes":
             ns = [100, 150] if quick else [50, 100, 300]      # exp2python is super-linear (about cubic) in the number of supertypes of one entity
         elif fam.startswith("many_"):
@@ -136,10 +140,32 @@ def shape_inputs(tier):
         out.append((f"contradiction:{k}", f(), None, None))
     for tag, data in G.wide_selects():
         out.append((tag, data, None, None))
+    for tag, data in G.contradictions_with_uses():
+        out.append((tag, data, None, None))
+    for tag, data in G.alias_statements():
+        out.append((tag, data, None, None))
+    for n in ([1, 5, 6, 7] if quick else [1, 2, 5, 6, 7, 8, 20, 100]):
+        for nested in (False, True):
+            out.append((f"include:{n}:{'nested' if nested else 'flat'}", G.include_chain(n, nested), None, None))
     for k in G.TRIVIAL_KINDS:
         out.append((f"trivial:{k}", G.trivial(k), None, None))
     for k in G.NO_NL_KINDS:
         out.append((f"nonl:{k}", G.no_final_newline(k), None, None))
+    return out
+
+
+def long_expr_inputs(tier):
+    """one expression whose printed text exceeds exppp's string buffer (BIGBUFSIZ), through exp2cxx / exp2python"""
+    out = []
+    if tier == "quick":
+        cases = [("where", 120000), ("derive", 120000), ("where", 99990), ("constant", 100010)]
+    else:
+        cases = [(k, n) for k in G.LONG_EXPR_KINDS for n in (99990, 100010, 110000, 200000) if not (k == "subtype_expr" and n > 50000)]
+        cases += [("subtype_expr", 30000), ("subtype_expr", 50000)]
+    for k, n in cases:
+        out.append((f"longexpr:{k}:{n}", G.long_expr(k, n), None, None))
+        if k in ("where", "derive"):
+            out.append((f"longexpr:{k}:{n}:undotted", G.long_expr(k, n, dotted=False), None, None))
     return out
 
 
@@ -249,7 +275,8 @@ def make_key(tool, r, fam):
     return re.sub(r"\s+", "_", key)
 
 
-EXTRA_MARKS = [("subtype_cycle", ("ENTITYcalculate_inheritance", "ENTITYget_named_attribute", "subtype_cycle")),
+EXTRA_MARKS = [("longexpr", ("exp_output", "format_for_std_stringout")), ("selectsearch", ("EXP_resolve_op_dot_fuzzy", "EXP_resolve_op_group_fuzzy", "EXPresolve_op_dot", "EXPresolve_op_group")),
+               ("subtype_cycle", ("ENTITYcalculate_inheritance", "ENTITYget_named_attribute", "subtype_cycle")),
                ("wide", ("non_unique_types_string",))]
 
 
@@ -286,6 +313,8 @@ def report_bad(ctx, run, timeout):
                 data, r = G.shape(fam, mn), mr
             else:
                 mn = n
+        elif isinstance(data, dict):
+            pass            # several files (INCLUDE chains): reported as generated
         elif r["cls"] != "timeout" and 256 <= len(data) < 400000:
             d2, r2 = minimise_lines(run, data, tool, args, tmo, sig=r["sig"])
             if r2:
@@ -294,8 +323,10 @@ def report_bad(ctx, run, timeout):
         what = (f"{tool} {' '.join(args)} on {e['tag']}" + (f" (minimal n={mn})" if mn is not None else "") +
                 f": {r['cls']} [{r['sig']}] rc={r['rc']}" + (f"; also {', '.join(e['also'][:6])}" if e["also"] else ""))
         rep = {"tool": tool, "args": list(args), "class": r["cls"], "signature": r["sig"], "exit": r["rc"],
-               "family": fam, "n": mn, "input_latin1": data.decode("latin-1") if len(data) <= 200000 else None,
-               "input_len": len(data), "regenerate": f"tools/c06_gen.py shape({fam!r}, {mn})" if fam else None,
+               "family": fam, "n": mn,
+               "input_latin1": None if isinstance(data, dict) else (data.decode("latin-1") if len(data) <= 300000 else None),
+               "files_latin1": {k: v.decode("latin-1") for k, v in data.items()} if isinstance(data, dict) else None,
+               "input_len": sum(len(v) for v in data.values()) if isinstance(data, dict) else len(data), "regenerate": f"tools/c06_gen.py shape({fam!r}, {mn})" if fam else None,
                "stderr": r["err"][:2500],
                "how": "write input to in.exp; run the ASan+UBSan build of <tool> <args> in.exp (ASAN_OPTIONS=detect_leaks=0)"}
         if ctx.violation(key, what, rep):
@@ -331,7 +362,8 @@ THEOREM_SITE = {
     "C06_ident_gate_present": ["ident_enum_item", "ident_schema"], "C06_no_overflow_type_description": ["many_enum_items"],
     "C06_no_overflow_exppp_filename": ["ident_schema"],
     "C06_inheritance_terminates": ["subtype_cycle"], "C06_named_attribute_terminates": ["subtype_cycle"],
-    "C06_no_overflow_non_unique_types": ["wide"],
+    "C06_no_overflow_non_unique_types": ["wide"], "C06_string_buffer_terminated": ["longexpr"],
+    "C06_select_qualifier_terminates": ["selectsearch"],
 }
 
 
@@ -487,6 +519,36 @@ def run(ctx):
     shapes = shape_inputs(ctx.tier)
     run_.run(shapes, timeout=tmo)
     ctx.cov["correspondence"]["shapes"] = {"inputs": len(shapes), "wall_s": round(time.time() - t1, 1)}
+    t1b = time.time()
+    longs = long_expr_inputs(ctx.tier)
+    resl = run_.run(longs, tools_of=lambda tag, fam: ["exp2cxx", "exp2python", "check-express"], timeout=max(tmo, 120))
+    # model: the string exp2cxx gets back is terminated inside the block whatever the chunk lengths
+    for tag, data, _, _ in longs:
+        n = int(tag.split(":")[2])
+        pred = model.one(f"strbuf 20,{n},5")
+        r = resl[(tag, "exp2cxx")]
+        ncomp += 1
+        hit = r["cls"] in R.BAD and any(x in r["sig"] + r["err"][:2500] for x in ("exp_output", "format_for_std_stringout", "finish_string", "exppp"))
+        if ("terminated=false" in pred or mclass(pred) == "overflow") != hit:
+            disagreements.append(("longexpr", n, "exp2cxx", pred, f"{r['cls']} {r['sig']}"))
+    # exppp options that change where output goes: several schemas to stdout, to one named file
+    outs = [(f"stdout:{n}", G.multi_schema(n), None, None) for n in (1, 2, 3)]
+    run_.run(outs, tools_of=lambda tag, fam: ["exppp"], timeout=tmo, args=("-o", "--"))
+    run_.run(outs, tools_of=lambda tag, fam: ["exppp"], timeout=tmo, args=("-o", "one_file.exp"))
+    # select cycles used as the left operand of `.` / `\`: model verdict vs the tools
+    for ln in (1, 2, 3):
+        pred = model.one(f"selectsearch {ln}")
+        for tag, data in G.contradictions_with_uses():
+            if tag.startswith(f"uses:selcycle{ln}_entfirst:") and tag.split(":")[2] in ("dot", "group_dot"):
+                res = run_.run([(f"boundary:{tag}", data, None, None)], timeout=tmo)
+                for t in R.TOOLS:
+                    r = res[(f"boundary:{tag}", t)]
+                    ncomp += 1
+                    if pred.startswith("returns") and r["cls"] == "accept":
+                        disagreements.append(("selectsearch", ln, t, pred, "circular select accepted"))
+                    elif pred == "never-returns" and r["cls"] not in R.BAD:
+                        disagreements.append(("selectsearch", ln, t, pred, f"{r['cls']} rc={r['rc']}"))
+    ctx.cov["correspondence"]["long_expressions_and_options"] = {"inputs": len(longs) + 6, "wall_s": round(time.time() - t1b, 1)}
 
     # 3. generated valid schemas, then token- and byte-level mutants of them
     t2 = time.time()
@@ -595,7 +657,9 @@ def replay(ctx, path):
     if "tool" not in r:
         return
     b = ctx.build("asan")
-    if r.get("input_latin1") is not None:
+    if r.get("files_latin1"):
+        data = {k: v.encode("latin-1") for k, v in r["files_latin1"].items()}
+    elif r.get("input_latin1") is not None:
         data = r["input_latin1"].encode("latin-1")
     else:
         data = G.shape(r["family"], r["n"])
